@@ -12,8 +12,9 @@ False = "/" (joins (y,x+1) and (y+1,x)).
 import itertools
 
 NAME = "gokigen"
-STATUS = "model+differential"
-THEOREMS = []
+STATUS = "theorem"
+THEOREMS = ["Cspuz.C11.Gokigen.program_iff_rules", "Cspuz.C11.Gokigen.total"]
+LEAN_FILE = "C11_Gokigen"
 LEAN_CMD = "puz_gokigen"
 
 _SIZES = [(1, 1), (1, 2), (2, 1), (1, 3), (3, 1), (2, 2), (2, 3), (3, 2), (1, 4), (4, 1), (3, 3), (2, 4), (4, 2), (3, 4), (4, 3)]
